@@ -124,9 +124,10 @@ class TTuple(Ty):
     def sort(self):
         key = self.show()
         if key not in _TUPLE_SORTS:
+            sorts = [t.sort() for t in self.items]  # nested tuple sorts first (they take their own names)
             name = "T" + str(len(_TUPLE_SORTS))
             dt = z3.Datatype(name)
-            dt.declare("mk" + name, *[(f"f{name}_{i}", t.sort()) for i, t in enumerate(self.items)])
+            dt.declare("mk" + name, *[(f"f{name}_{i}", so) for i, so in enumerate(sorts)])
             _TUPLE_SORTS[key] = dt.create()
         return _TUPLE_SORTS[key]
 
